@@ -125,6 +125,17 @@ def gen_lu(r, Ls, n_random, exhaustive_n):
         kind = r.below(4); L = r.pick(Ls); csc = r.below(2); n = r.rng(2, 9); blocks = r.rng(1, 2 * max(L, 1) + 1)
         es = G.gen_pattern(r, n, density=r.unit() * 0.5)
         cs.append(lu_case(r, kind, L, csc, n, blocks, es))
+    # many blocks of a small system: block counts around and beyond the flat size of a group (L * nnz), where a
+    # group offset confused with a block count stops wrapping around
+    for _ in range(max(20, n_random // 5)):
+        kind = r.below(4); L = r.pick(Ls); csc = r.below(2); n = r.rng(1, 3)
+        es = G.gen_pattern(r, n, density=r.unit() * 0.6)
+        nnz = len(fill_closure(n, es))
+        gs = max(L, 1) * max(nnz, 1)
+        blocks = r.pick([gs, gs + 1, gs + max(L, 1), 2 * gs, 2 * gs + 1, r.rng(gs, 3 * gs + 2), max(L, 1) * n, max(L, 1) * n + 1])
+        c = lu_case(r, kind, L, csc, n, min(blocks, 64), es)
+        c.tags.append("many_blocks")
+        cs.append(c)
     return cs
 
 ROS_NAMES = ["TwoStageRosenbrockParameters", "ThreeStageRosenbrockParameters", "FourStageRosenbrockParameters",
@@ -1214,10 +1225,16 @@ def gen_build_case(r, errors=False):
             if r.chance(0.5): rs[0] = "Unknown"
             elif ps: ps[0] = "Unknown"
             else: rs[0] = "Unknown"
-        rxt.append(str(nr))
+        # third bodies: parameterized (non-state) species named in a reaction, on either side; they are "used" names
+        # for SpeciesUsed() but not state variables, whether or not the system lists them
+        tb_r = [r.pick(["M", "N2"])] if r.chance(0.3) else []
+        tb_p = list(tb_r) if (tb_r and r.chance(0.4)) else []
+        rxt.append(str(nr + len(tb_r)))
         for n in rs: rxt += [n, "0"]; used.add(n)
-        rxt.append(str(np_))
+        for n in tb_r: rxt += [n, "1"]
+        rxt.append(str(np_ + len(tb_p)))
         for n in ps: rxt += [n, "0", hexd(r.pick([1.0, 0.5, 2.0]))]; used.add(n)
+        for n in tb_p: rxt += [n, "1", hexd(1.0)]
     hasSys = 0 if (errors and r.chance(0.08)) else 1
     hasRx = r.pick([0, 2]) if (errors and r.chance(0.12)) else 1
     ignoreUnused = 1 if not errors else r.below(2)
@@ -1461,7 +1478,7 @@ def g_c17(r, tier, env, Ls):
             else:
                 ops += problem_ops(r, p, s)[:-1]
             if r.chance(0.25):                                 # the solvers themselves are moved around
-                ops.append([r.pick(["mvs_c", "mvs_a"]), str(r.below(2))])
+                ops.append([r.pick(["mvs_c", "mvs_a", "mvs_x"]), str(r.below(2))])
         # finally: a copy must behave like its source: copy s -> 7, solve both with the same dt
         s = r.pick(sorted(live))
         dt = hexd(r.logu(1e-2, 1e2))
